@@ -4,6 +4,7 @@ package main
 
 import (
 	"bytes"
+	"filippo.io/age"
 	"fmt"
 	"os"
 	"path/filepath"
@@ -36,7 +37,7 @@ func readState(path string) ([]byte, bool) {
 }
 
 func checkC15(c *Ctx) {
-	c.rule = "the real age and age-keygen binaries (rebuilt from the working tree) in scratch directories: decrypt x {valid file of 0 / 1 / 100 / cs+1 plaintext bytes, armored, header bit flipped, wrong identity, payload flipped in the first / second chunk, truncated mid-chunk / right after the nonce / inside the nonce / exactly at a chunk boundary} x output {-o fresh file, -o existing file, -o in a missing directory, -o under a regular file, -o with RLIMIT_FSIZE = n for every n up to the size of small outputs and around chunk boundaries, stdout to a pipe, stdout = /dev/full}; encrypt x the same outputs; output naming the input / identity file / recipients file as x, ./x, d/../x, $PWD/x, .//x; age-keygen with existing / fresh -o, stdout, /dev/full, -y, umask 0/022/077; ALL combinations of the flags -d -e -p -a and zero/one/two of -r -R -i, zero/one -j, zero/one/two positional arguments (input from a file or a pipe): exit status and the state of the -o path vs the model (CliFlags.validate, then the delivery rule); combinations that may prompt run on a pty (quick tier: a quarter of them). Compared with the model (Cli.v fed with the library outcome): exit status = 0?, state of the -o path (absent / unchanged / content), file mode. distinct_nontrivial = distinct (operation, input, output) cases."
+	c.rule = "the real age and age-keygen binaries (rebuilt from the working tree) in scratch directories: decrypt x {valid file of 0 / 1 / 100 / cs+1 plaintext bytes, armored, header bit flipped, wrong identity, payload flipped in the first / second chunk, truncated mid-chunk / right after the nonce / inside the nonce / exactly at a chunk boundary} x output {-o fresh file, -o existing file, -o in a missing directory, -o under a regular file, -o with RLIMIT_FSIZE = n for every n up to the size of small outputs and around chunk boundaries, stdout to a pipe, stdout = /dev/full}; encrypt x the same outputs; output naming the input / identity file / recipients file as x, ./x, d/../x, $PWD/x, .//x; age-keygen with existing / fresh -o, stdout, /dev/full, -y, umask 0/022/077; ALL combinations of the flags -d -e -p -a and zero/one/two of -r -R -i, zero/one -j, zero/one/two positional arguments (input from a file or a pipe): exit status and the state of the -o path vs the model (CliFlags.validate, then the delivery rule); combinations that may prompt run on a pty (quick tier: a quarter of them). passphrase-protected identity files (right / wrong passphrase, a file for another key, encrypting to one) on a pty. Compared with the model (Cli.v fed with the library outcome): exit status = 0?, state of the -o path (absent / unchanged / content), file mode. distinct_nontrivial = distinct (operation, input, output) cases."
 	dir, _ := os.MkdirTemp("", "verif-c15-")
 	defer os.RemoveAll(dir)
 	pty := x25519Party(c.rng.bytes(32))
@@ -358,6 +359,46 @@ func checkC15(c *Ctx) {
 		c.Oracle("header-refusal-leaves-output-untouched", res.exit != 0 && !exists, "output-touched-on-refusal", "passphrase file with -i", "")
 		c.count("passphrase-pty")
 		c.note("pty", true)
+		// ---- a passphrase-protected IDENTITY FILE (cmd/age/encrypted_keys.go EncryptedIdentity): the prompt
+		// comes when the identity is first used; a wrong passphrase is a refusal at the header ----
+		os.Remove(filepath.Join(dir, "key.age"))
+		mk := runPty(dir, [][2]string{{"Enter passphrase", "key file pass"}, {"Confirm passphrase", "key file pass"}}, binPath("age"), "-p", "-a", "-o", "key.age", "key.txt")
+		_, kex := readState(filepath.Join(dir, "key.age"))
+		c.Oracle("passphrase-encrypt-delivers", mk == 0 && kex, "pty-encrypt-keyfile", nil, fmt.Sprintf("age -p -a on the key file: exit %d, output exists %v", mk, kex))
+		fplain := []byte("for the protected key\n")
+		fenc, _, _, _ := encryptImplNoTape(&scenario{parties: []*party{pty}, plain: fplain})
+		os.WriteFile(filepath.Join(dir, "forkey.age"), fenc, 0o600)
+		fother, _, _, _ := encryptImplNoTape(&scenario{parties: []*party{other}, plain: fplain})
+		os.WriteFile(filepath.Join(dir, "forother.age"), fother, 0o600)
+		for _, tc := range []struct {
+			name, pass, input string
+			lib               string
+		}{
+			{"right-passphrase", "key file pass", "forkey.age", lst(":plain", hx(fplain))},
+			{"wrong-passphrase", "not the pass", "forkey.age", ":refused"},
+			{"right-passphrase-file-for-another-key", "key file pass", "forother.age", ":refused"},
+		} {
+			for _, pre := range [][]byte{nil, []byte("previous content, longer than the plaintext")} {
+				os.Remove(filepath.Join(dir, "ek.out"))
+				if pre != nil {
+					os.WriteFile(filepath.Join(dir, "ek.out"), pre, 0o600)
+				}
+				exit := runPty(dir, [][2]string{{"Enter passphrase", tc.pass}}, binPath("age"), "-d", "-i", "key.age", "-o", "ek.out", tc.input)
+				got, exists := readState(filepath.Join(dir, "ek.out"))
+				model := c.model.Call("cli_decrypt", fstateSx(pre, pre != nil), lst(":true", ":none", ":true"), tc.lib)
+				cliCase("decrypt-with-protected-identity-file", map[string]interface{}{"op": "decrypt -i key.age", "case": tc.name, "preexisting": pre != nil}, exit == 0, fstateSx(got, exists), model)
+				if tc.lib == ":refused" {
+					c.Oracle("header-refusal-leaves-output-untouched", exit != 0 && ((pre == nil && !exists) || (pre != nil && bytes.Equal(got, pre))), "output-touched-on-refusal", tc.name, "the -o file was created or modified although the protected identity file could not be used")
+				}
+			}
+		}
+		// encrypting TO a protected identity file (-e -i key.age): the result opens with the plain key
+		os.Remove(filepath.Join(dir, "toek.age"))
+		ee := runPty(dir, [][2]string{{"Enter passphrase", "key file pass"}}, binPath("age"), "-e", "-i", "key.age", "-o", "toek.age", "pp.txt")
+		tb, _ := os.ReadFile(filepath.Join(dir, "toek.age"))
+		_, eout, eoc := decryptImpl(bytes.NewReader(tb), false, []age.Identity{pty.id})
+		c.Oracle("encrypt-exit-0-iff-complete-file", ee == 0 && bytes.Equal(eout, plain) && eoc == ":eof", "pty-encrypt-to-protected-identity", nil, fmt.Sprintf("age -e -i key.age: exit %d, decrypts to the input: %v (%s)", ee, bytes.Equal(eout, plain), eoc))
+		c.count("protected-identity-file")
 	}
 	c.c15Flags(dir, pty)
 	c.note("keygen-misc", true)
